@@ -377,6 +377,18 @@ def _rewritten(fn, clsname=None):
     return new
 
 
+def _lib_pointwise(fn):
+    def wrapper(*a, **k):
+        CVt = _cv().CV
+        if any(isinstance(x, CVt) for x in a) or any(isinstance(x, CVt) for x in k.values()):
+            keys = list(k)
+            return _cv().apply(lambda *aa: fn(*aa[:len(a)], **dict(zip(keys, aa[len(a):]))), *a, *[k[q] for q in keys])
+        return fn(*a, **k)
+    wrapper.__name__ = getattr(fn, "__name__", "lib")
+    wrapper.__wrapped__ = fn
+    return wrapper
+
+
 _ACTIVE = []  # stack of (target, key, original, replacement) lists of the active `patched` blocks
 
 
@@ -440,6 +452,12 @@ def patched(*modules, extra=None):
                 # console output is not part of any property: the message may contain symbolic text
                 setg(d, "warn", lambda *a, **k: None)
             for k, v in list(d.items()):
+                if (isinstance(v, (types.FunctionType, types.BuiltinFunctionType)) and k not in BUILTINS and k != "warn"
+                        and not str(getattr(v, "__module__", "") or "").startswith(("ford", "fv"))):
+                    # a library function imported into the module (quote, dedent, fnmatch, ...): C code / foreign Python that
+                    # knows nothing of finite-choice values: evaluate it per choice with its real semantics
+                    setg(d, k, _lib_pointwise(v))
+                    continue
                 if isinstance(v, types.FunctionType) and v.__module__ == m.__name__:
                     nv = _rewritten(v)
                     if nv is not None:
